@@ -826,4 +826,35 @@ def rule_l(ctx: Ctx) -> None:
                 'value of its other atoms); its true branch raises or assigns base_url on every path.')
 
 
-RULES = [rule_a, rule_b, rule_c, rule_d, rule_e, rule_f, rule_g, rule_h, rule_i, rule_j, rule_k, rule_l]
+def rule_m(ctx: Ctx) -> None:
+    """A location hint found in an instance is *resolved* against the instance (that is where a relative hint points) but the schema it names is *admitted*
+    against the base of the schema set: the sandbox is the schema's, not the directory of whatever document is being validated.  In both implementations of
+    check_dynamic_context the base handed to include_schema / import_schema is the validator's, never one derived from the instance resource."""
+    rule = 'C12.m'
+    n = 0
+    for cq in ('xmlschema.validators.elements.XsdElement', 'xmlschema.validators.elements.Xsd11Element'):
+        c = ctx.idx.cls(cq)
+        f = c.methods.get('check_dynamic_context')
+        if f is None:
+            raise AnalysisError(f'missing anchor {cq}.check_dynamic_context')
+        ctx.analysed(f.qualname)
+        for cl in calls(f.node):
+            if not (isinstance(cl.func, ast.Attribute) and cl.func.attr in ('include_schema', 'import_schema')):
+                continue
+            n += 1
+            pos = 1 if cl.func.attr == 'include_schema' else 2
+            arg = cl.args[pos] if len(cl.args) > pos else next((k.value for k in cl.keywords if k.arg == 'base_url'), None)
+            src = text(arg) if arg is not None else ''
+            if isinstance(arg, ast.Name):
+                defs = [text(s_.value) for s_ in ast.walk(f.node) if isinstance(s_, ast.Assign) and len(s_.targets) == 1 and text(s_.targets[0]) == arg.id]
+                src = ' | '.join(defs) or src
+            ok = arg is not None and 'context.source' not in src and 'elem' not in src and ('validator.base_url' in src or 'self.schema.base_url' in src or 'settings.base_url' in src)
+            ctx.ob(rule, f'{c.name}.check_dynamic_context: `{text(cl)[:60]}` admits the hinted schema against the base of the schema set', f.loc(cl), ok,
+                   '' if ok else f'the base is `{src or "missing"}`: with allow=\'sandbox\' a hint on an element of an instance that lies outside the schema\'s directory is checked against the '
+                   'instance\'s own directory - the schema it names is loaded from outside the sandbox', key=f'{f.qualname}|hint-base|{cl.func.attr}')
+    ctx.floor(rule, 'include_schema / import_schema calls for location hints', n, 4)
+    ctx.explain('C12.m: the base_url argument of the include_schema / import_schema calls in XsdElement.check_dynamic_context and Xsd11Element.check_dynamic_context is the validator\'s '
+                'base URL (directly or through a single-assignment local), not an expression over context.source.')
+
+
+RULES = [rule_a, rule_b, rule_c, rule_d, rule_e, rule_f, rule_g, rule_h, rule_i, rule_j, rule_k, rule_l, rule_m]
